@@ -174,6 +174,12 @@ func main() {
 				if o == n {
 					continue
 				}
+				if strings.HasPrefix(o, "panic|") && strings.HasPrefix(n, "panic|") {
+					// The Go spec orders function calls among themselves but not relative to index or
+					// division operations that panic: the compiler may run a later call before an earlier
+					// panicking operand in one program and not in the other.  Two panics are the same outcome.
+					continue
+				}
 			}
 			bad++
 			if bad <= 3 {
